@@ -618,5 +618,105 @@ theorem map_add_cancel (vs : List (V3 ℝ)) (c : V3 ℝ) :
   intro v _
   exact v3_add_sub_cancel v c
 
+/-! ### polygon measures under translation -/
+
+theorem rotl_perm {β : Type} (k : Nat) (l : List β) : (Poly2.rotl k l).Perm l := by
+  unfold Poly2.rotl
+  exact List.perm_append_comm.trans (by rw [List.take_append_drop])
+
+theorem rotl_length {β : Type} (k : Nat) (l : List β) : (Poly2.rotl k l).length = l.length :=
+  (rotl_perm k l).length_eq
+
+theorem v3get_add (a t : V3 ℝ) (i : Nat) : (a + t).get i = a.get i + t.get i := by
+  unfold V3.get; split_ifs <;> rfl
+
+theorem v3_add_sub_add (a b t : V3 ℝ) : (b + t) - (a + t) = b - a := by
+  cases a; cases b; cases t; ext <;> simp
+
+theorem sum_zipWith_sub {β γ : Type} (f : β → ℝ) (g : γ → ℝ) (l : List β) (l' : List γ)
+    (h : l.length = l'.length) :
+    (List.zipWith (fun a b => g b - f a) l l').sum = (l'.map g).sum - (l.map f).sum := by
+  induction l generalizing l' with
+  | nil => cases l' with
+    | nil => simp
+    | cons b t => simp at h
+  | cons a t ih =>
+    cases l' with
+    | nil => simp at h
+    | cons b t' =>
+      simp only [List.length_cons, Nat.add_right_cancel_iff] at h
+      simp only [List.zipWith_cons_cons, List.sum_cons, List.map_cons, ih t' h]; ring
+
+theorem sum_zipWith_add_mul {β γ : Type} (c : ℝ) (F G : β → γ → ℝ) (l : List β) (l' : List γ) :
+    (List.zipWith (fun a b => F a b + c * G a b) l l').sum
+      = (List.zipWith F l l').sum + c * (List.zipWith G l l').sum := by
+  induction l generalizing l' with
+  | nil => simp
+  | cons a t ih =>
+    cases l' with
+    | nil => simp
+    | cons b t' => simp only [List.zipWith_cons_cons, List.sum_cons, ih t']; ring
+
+/-- the shoelace sum of a closed polygon does not see a translation -/
+theorem signedArea_translate (t : V3 ℝ) (vs : List (V3 ℝ)) (n : V3 ℝ) :
+    Poly2.signedArea (vs.map (· + t)) n = Poly2.signedArea vs n := by
+  unfold Poly2.signedArea
+  simp only [rotl_map, List.zip_map, List.zipWith_map_left, List.zipWith_map_right, Scalar.sum_real]
+  congr 1
+  set c1 := (Poly2.argmax3 (Scalar.abs n.x) (Scalar.abs n.y) (Scalar.abs n.z) + 1) % 3
+  set c2 := (Poly2.argmax3 (Scalar.abs n.x) (Scalar.abs n.y) (Scalar.abs n.z) + 2) % 3
+  have hfun : (fun (ab : V3 ℝ × V3 ℝ) (c : V3 ℝ) =>
+        (Prod.map (· + t) (· + t) ab).2.get c1 * ((c + t).get c2 - (Prod.map (· + t) (· + t) ab).1.get c2))
+      = (fun ab c => ab.2.get c1 * (c.get c2 - ab.1.get c2) + t.get c1 * (c.get c2 - ab.1.get c2)) := by
+    funext ab c
+    simp only [Prod.map, v3get_add]; ring
+  rw [hfun, sum_zipWith_add_mul]
+  have hlen : (vs.zip (Poly2.rotl 1 vs)).length = (Poly2.rotl 2 vs).length := by
+    simp [List.length_zip, rotl_length]
+  rw [sum_zipWith_sub (fun ab : V3 ℝ × V3 ℝ => ab.1.get c2) (fun c : V3 ℝ => c.get c2) _ _ hlen]
+  have h1 : ((vs.zip (Poly2.rotl 1 vs)).map fun ab => ab.1.get c2) = vs.map fun v => v.get c2 := by
+    rw [show (fun ab : V3 ℝ × V3 ℝ => ab.1.get c2) = (fun v : V3 ℝ => v.get c2) ∘ Prod.fst from rfl,
+      ← List.map_map, List.map_fst_zip (by rw [rotl_length])]
+  rw [h1, ((rotl_perm 2 vs).map _).sum_eq]; ring
+
+theorem area_translate (t : V3 ℝ) (vs : List (V3 ℝ)) (n : V3 ℝ) :
+    Poly2.area (vs.map (· + t)) n = Poly2.area vs n := by
+  unfold Poly2.area; rw [signedArea_translate]
+
+theorem perimeter_translate (t : V3 ℝ) (vs : List (V3 ℝ)) :
+    Poly2.perimeter (vs.map (· + t)) = Poly2.perimeter vs := by
+  unfold Poly2.perimeter
+  simp only [rotl_map, List.zipWith_map_left, List.zipWith_map_right, v3_add_sub_add]
+
+theorem edgeSum_translate (t : V3 ℝ) (vs : List (V3 ℝ)) : edgeSum (vs.map (· + t)) = edgeSum vs := by
+  unfold edgeSum
+  simp only [rotl_map, List.zipWith_map_left, List.zipWith_map_right, v3_add_sub_add]
+
+/-- a spheropolygon with a non-degenerate core and `r ≥ 0` has positive area and perimeter -/
+theorem spg_area_pos (s : SPGState ℝ) (ha : 0 < Poly2.area s.core.verts s.core.normal) (hr : 0 ≤ s.radius) :
+    0 < s.area := by
+  unfold SPGState.area SPGState.signedArea
+  unfold Poly2.area at ha
+  simp only [Scalar.abs_real, Scalar.lit, Scalar.ofNat_real, Nat.cast_zero, Scalar.pi_real] at ha ⊢
+  have he := edgeSum_nonneg s.core.verts
+  have hs : 0 ≤ edgeSum s.core.verts * s.radius + Real.pi * s.radius * s.radius := by
+    have := Real.pi_pos; positivity
+  split_ifs with hneg
+  · rw [abs_of_neg (by linarith)]; linarith
+  · have hA : 0 < Poly2.signedArea s.core.verts s.core.normal := by
+      rcases lt_or_eq_of_le (not_lt.mp hneg) with h | h
+      · exact h
+      · rw [← h] at ha; simp at ha
+    rw [abs_of_pos (by linarith)]; linarith
+
+theorem spg_perimeter_pos (s : SPGState ℝ) (hp : 0 < Poly2.perimeter s.core.verts) (hr : 0 ≤ s.radius) :
+    0 < s.perimeter := by
+  unfold SPGState.perimeter
+  simp only [Scalar.lit, Scalar.ofNat_real, Scalar.pi_real]
+  have := Real.pi_pos
+  push_cast
+  have : 0 ≤ 2 * Real.pi * s.radius := by positivity
+  linarith
+
 end Mut
 end
